@@ -4,6 +4,7 @@ import (
 	"bytes"
 	"errors"
 	"fmt"
+	"sort"
 	"testing"
 
 	bp "github.com/gnolang/gno/tm2/pkg/bptree"
@@ -234,7 +235,13 @@ func c24Exec(ctx *vk.Ctx, c c24Case) error {
 		return fmt.Errorf("run A saved %d versions, run B %d (harness transform bug?)", len(a.hashes), len(b.hashes))
 	}
 	diffCfg := false
-	for v, ha := range a.hashes {
+	var saved []int64
+	for v := range a.hashes {
+		saved = append(saved, v)
+	}
+	sort.Slice(saved, func(i, j int) bool { return saved[i] < saved[j] })
+	for _, v := range saved {
+		ha := a.hashes[v]
 		hb, ok := b.hashes[v]
 		if !ok {
 			return fmt.Errorf("version %d saved in A but not in B", v)
